@@ -76,4 +76,46 @@ theorem C13_flag_off_no_debug (g : G) (isDebug : Node → Bool) (sel leaves : Li
   simp only [extendDebug, Bool.false_eq_true, if_false, List.mem_filter, Bool.not_eq_true'] at hx
   exact hx.2
 
+/-- **C13** (flag on): the selection itself is kept — in particular a whole-DAG call (selection = every node) runs EVERY
+    debug node, also one that has no input at all (which no "pull in what hangs below the selection" rule could find). -/
+theorem C13_flag_on_keeps_selection (g : G) (isDebug : Node → Bool) (sel leaves : List Node) (x : Node) (hx : x ∈ sel) :
+    x ∈ extendDebug g isDebug sel leaves true := by
+  simp only [extendDebug, if_true, List.mem_append]
+  exact Or.inl hx
+
+/-- the pass is complete for direct hangers-on: a debug node of the graph all of whose (at least one) inputs are among the
+    starting nodes is in the result -/
+theorem debugPass_complete (g : G) (isDebug : Node → Bool) (m : Node) (hd : isDebug m = true)
+    (hne : (g.predsIn m).isEmpty = false) : ∀ (l L : List Node), m ∈ l → (∀ p ∈ g.predsIn m, p ∈ L) →
+    m ∈ debugPass g isDebug l L := by
+  intro l
+  induction l with
+  | nil => intro L h; cases h
+  | cons a rest ih =>
+    intro L hm hp
+    simp only [debugPass]
+    by_cases hmL : m ∈ L
+    · split
+      · exact debugPass_mono g isDebug rest _ m (by simp [hmL])
+      · exact debugPass_mono g isDebug rest _ m hmL
+    · rcases List.mem_cons.mp hm with h | h
+      · subst h
+        have hq : qualifies g isDebug L m = true := by
+          simp only [qualifies, Bool.and_eq_true, Bool.not_eq_true', List.all_eq_true, List.contains_eq_mem, decide_eq_true_eq]
+          refine ⟨⟨⟨by simpa using hmL, hd⟩, hne⟩, hp⟩
+        rw [if_pos hq]
+        exact debugPass_mono g isDebug rest _ m (by simp)
+      · split
+        · exact ih _ h (fun p hp' => by simp [hp p hp'])
+        · exact ih _ h hp
+
+/-- **C13** (flag on, sub-graph runs): a debug node whose inputs are all LEAVES of the selection is pulled into the run -/
+theorem C13_debug_below_leaves_is_pulled (g : G) (isDebug : Node → Bool) (sel leaves : List Node) (m : Node)
+    (hm : m ∈ g.nodes) (hd : isDebug m = true) (hne : (g.predsIn m).isEmpty = false)
+    (hp : ∀ p ∈ g.predsIn m, p ∈ leaves) : m ∈ extendDebug g isDebug sel leaves true := by
+  simp only [extendDebug, if_true, List.mem_append, List.mem_filter]
+  by_cases hs : m ∈ sel
+  · exact Or.inl hs
+  · exact Or.inr ⟨debugPass_complete g isDebug m hd hne g.nodes leaves hm hp, by simpa using hs⟩
+
 end GM
